@@ -253,6 +253,23 @@ def extra_configs(prop, tier, seed):
                          store_best_only=rng.random() < 0.3)
                 c['lb'], c['ub'] = runlevel.make_box(rng, 'wide', c['n_vars'])
                 extra.append(c)
+    if prop in ('C02', 'C03', 'C04', 'C07', 'C12'):
+        # a hook that installs a new list (the population re-ranked) through the public setter: the optimizer works on the
+        # space's current population, the records describe it
+        pool = runlevel.gen_configs('thorough', seed + 181)
+        for kind in ['HS', 'IHS', 'GP', 'HC', 'ABC', 'CS', 'FA', 'SA', 'BHA', 'PSO', 'WCA']:
+            if prop == 'C12' and kind != 'GP':
+                continue
+            for c in [c for c in pool if c['kind'] == kind][:2 if tier == 'quick' else 6]:
+                extra.append(dict(c, hook='relist', adv=0.0, n_iter=max(c['n_iter'], 4), n_agents=max(c['n_agents'], 4),
+                                  objective='sphere' if kind != 'WCA' else 'positive', store_best_only=False))
+    if prop in ('C04', 'C19', 'C20'):
+        # an objective with a hard constraint (+inf on part of the box): what is recorded / returned is what was there
+        pool = runlevel.gen_configs('thorough', seed + 191)
+        for kind in ['HC', 'SCA', 'FA', 'SA']:
+            for c in [c for c in pool if c['kind'] == kind and c['space'] == 'search'][:2 if tier == 'quick' else 6]:
+                extra.append(dict(c, hook='observer', adv=0.0, objective='infpen', box='wide', lb=[-4.0] * c['n_vars'], ub=[6.0] * c['n_vars'],
+                                  n_agents=max(c['n_agents'], 4), store_best_only=False))
     if prop in ('C03', 'C04', 'C15'):
         # optimizers whose loop does arithmetic on the iteration count (schedules): iteration counts at which a rounded
         # quotient / arange length / product goes wrong by one ulp or one element
